@@ -29,6 +29,9 @@ type c10call struct {
 	err        error
 	slowMs     int
 	startedSeq uint64
+	task       string
+	inIO       bool // the request has been handed to the client's IO stage
+	atAbort    bool // was blocked inside the IO stage when Abort was called
 }
 
 func c10Kinds(r *Run) []string {
@@ -64,27 +67,31 @@ func scenC10(r *Run) {
 	r.Param("callers", ncallers)
 	r.Param("warm", warm)
 
+	RegisterKind(kind)
 	sim := r.StartSim(verifsim.Config{StallChoices: stalls, IdleCap: 10 * time.Minute, StepCap: 60000})
-	net := NewNet(sim)
 	service := core.NewService()
 	service.AddFunction(func(x int) int { return x*2 + 1 }, "dbl")
 	service.AddFunction(func(x int, ms int) int {
 		time.Sleep(time.Duration(ms) * time.Millisecond)
 		return x*2 + 1
 	}, "slow")
-	fx := NewFixture(r, net, kind, service)
+	fx := NewFixture(r, kind, service)
+	net := fx.Net
 	client := fx.NewClient()
 	client.Timeout = timeout
 	acts := NewActions(sim)
+	type callKey struct{}
+	client.Use(func(ctx context.Context, request []byte, next core.NextIOHandler) ([]byte, error) {
+		if c, ok := ctx.Value(callKey{}).(*c10call); ok {
+			c.inIO = true
+		}
+		return next(ctx, request)
+	})
 
 	// ---- fault plan (one or two faults per run)
 	nf := 1 + r.Plan(2)
 	var faultDesc []string
 	lossExecuted := false
-	firstConn := 0
-	if warm {
-		firstConn = 0 // the warm-up connection is the one that gets hurt
-	}
 	var calls []*c10call
 	started := func() int {
 		n := 0
@@ -95,40 +102,68 @@ func scenC10(r *Run) {
 		}
 		return n
 	}
-	wantAbort, wantCancel := false, false
+	wantAbort, wantCancel, wantSlow := false, false, false
+	offsets := []int{0, 1, 2, 4, 8, 11, 12, 13, 16, 20, 24, 30, 40, 60, 90, 130, 200}
+	if strings.Contains(kind, "http") || strings.HasPrefix(kind, "websocket") {
+		offsets = []int{0, 1, 5, 17, 40, 80, 120, 150, 170, 190, 200, 210, 220, 230, 240, 260, 300, 400}
+	}
 	for i := 0; i < nf; i++ {
 		var k string
 		if mode == "loss" {
 			k = r.PlanOf("close", "reset", "abort", "cancel", "dialfail", "close", "reset")
 		} else {
-			k = r.PlanOf("silence", "silence", "slow")
+			k = r.PlanOf("silence", "silence", "slow", "abort", "cancel", "drop")
+		}
+		if !fx.HasConns() {
+			switch k {
+			case "close", "reset":
+				k = "abort"
+			case "silence", "drop":
+				if kind != "udp" {
+					k = "slow"
+				}
+			}
+		} else if k == "drop" {
+			k = "silence"
 		}
 		switch k {
 		case "close", "reset", "silence":
-			if !fx.HasConns() {
-				k = "abort"
-				wantAbort = true
-				break
+			if kind == "udp" {
+				dir := r.PlanOf("c2s", "s2c")
+				from := r.Plan(4)
+				fx.UDP.SilenceFrom[dir] = from
+				faultDesc = append(faultDesc, fmt.Sprintf("udp-silence %s from #%d", dir, from))
+				continue
 			}
 			dir := r.PlanOf("c2s", "s2c")
-			off := r.PlanInt(0, 1, 2, 4, 8, 11, 12, 13, 16, 20, 24, 30, 40, 60, 90, 130, 200)
-			conn := firstConn + r.Plan(2)
+			off := offsets[r.Plan(len(offsets))]
+			conn := r.Plan(2)
 			net.AddFault(conn, dir, off, k)
 			faultDesc = append(faultDesc, fmt.Sprintf("%s conn%d %s@%d", k, conn, dir, off))
+			continue
+		case "drop":
+			dir := r.PlanOf("c2s", "s2c")
+			nth := r.Plan(5)
+			if fx.UDP.DropNth[dir] == nil {
+				fx.UDP.DropNth[dir] = map[int]bool{}
+			}
+			fx.UDP.DropNth[dir][nth] = true
+			faultDesc = append(faultDesc, fmt.Sprintf("udp-drop %s #%d", dir, nth))
 			continue
 		case "abort":
 			wantAbort = true
 		case "cancel":
 			wantCancel = true
 		case "dialfail":
-			net.DialFail = 1 + r.Plan(2)
-			if warm {
-				// the warm-up call must get its connection
-				net.DialFail = 0
+			if warm || kind == "mock" {
 				k = "abort"
 				wantAbort = true
+			} else {
+				net.DialFail = 1 + r.Plan(2)
+				fx.UDP.DialFail = net.DialFail
 			}
 		case "slow":
+			wantSlow = true
 		}
 		faultDesc = append(faultDesc, k)
 	}
@@ -142,10 +177,13 @@ func scenC10(r *Run) {
 	abortAfter := r.Plan(120)
 	cancelAfter := r.Plan(120)
 
+	aborted := false
+	var abortSeq uint64
+	_ = abortSeq
 	// ---- oracle pieces evaluated at quiescent points
 	phase := "warm"
 	sim.OnQuiescent(func() {
-		if net.InFlight() {
+		if fx.InFlight() {
 			return
 		}
 		now := sim.Now()
@@ -153,8 +191,16 @@ func scenC10(r *Run) {
 			if c.startedSeq == 0 || c.done {
 				continue
 			}
+			where := ""
+			if cn, _ := fx.Pending(); fx.IsMux() && cn <= 0 {
+				where = ":in-dial"
+			}
+			if aborted && c.atAbort {
+				r.Fail("C10:not-returned-after-abort:"+kind+where, "call %d (timeout %v) was blocked inside the transport when Client.Abort was called and is still pending at a quiescent point after Abort returned", c.id, c.timeout)
+				return
+			}
 			if c.cancelled {
-				r.Fail("C10:not-returned-after-cancel:"+kind, "call %d (timeout %v) still pending at a quiescent point after its context was cancelled", c.id, c.timeout)
+				r.Fail("C10:not-returned-after-cancel:"+kind+where, "call %d (timeout %v) still pending at a quiescent point after its context was cancelled", c.id, c.timeout)
 				return
 			}
 			if c.timeout > 0 && now-c.start > c.timeout+(sim.StallTotal()-c.stall0) {
@@ -180,7 +226,7 @@ func scenC10(r *Run) {
 		if c.slowMs > 0 {
 			name, args = "slow", []interface{}{c.nonce, c.slowMs}
 		}
-		res, err := client.InvokeContext(ctx, name, args)
+		res, err := client.InvokeContext(context.WithValue(ctx, callKey{}, c), name, args)
 		c.end = sim.Now()
 		c.res, c.err, c.done = res, err, true
 		sim.Event("return", c.id, fmt.Sprint(res), fmt.Sprint(err))
@@ -212,12 +258,15 @@ func scenC10(r *Run) {
 	if warm {
 		saved := net.PlanFaults
 		savedDial := net.DialFail
+		savedUDP := [2]interface{}{fx.UDP.DropNth, fx.UDP.SilenceFrom}
 		net.PlanFaults = map[int]map[string][]*linkFault{}
 		net.DialFail = 0
+		fx.UDP.DropNth, fx.UDP.SilenceFrom = map[string]map[int]bool{}, map[string]int{}
 		// the warm-up is not the subject: give it a timeout no stall can reach
 		client.Timeout = time.Hour
 		wc := &c10call{id: 0, nonce: 7, timeout: time.Hour}
 		calls = append(calls, wc)
+		wc.task = "awarm"
 		sim.Task("awarm", func() { doCall(wc, context.Background()) })
 		st := sim.Drive(func() bool { return wc.done })
 		if st != verifsim.Done || wc.err != nil {
@@ -237,6 +286,8 @@ func scenC10(r *Run) {
 		net.PlanFaults = saved
 		net.DialFail = savedDial
 		net.ArmExisting()
+		fx.UDP.DropNth, fx.UDP.SilenceFrom = savedUDP[0].(map[string]map[int]bool), savedUDP[1].(map[string]int)
+		fx.UDP.RebaseCounters()
 	}
 
 	// ---- phase 1: callers under faults
@@ -248,13 +299,16 @@ func scenC10(r *Run) {
 		for j := 0; j < perCaller; j++ {
 			c := &c10call{id: nextID, nonce: 100 + nextID*3, timeout: timeout}
 			nextID++
-			if mode == "silence" && r.PlanBool(3) {
+			if wantSlow && (j == 0 && i == 0 || r.PlanBool(2)) {
 				c.slowMs = r.PlanInt(50, 1000, 20000)
 			}
 			mine = append(mine, c)
 			calls = append(calls, c)
 		}
 		cancellable := wantCancel && (i == 0 || r.PlanBool(2))
+		for _, c := range mine {
+			c.task = fmt.Sprintf("caller%02d", i)
+		}
 		sim.Task(fmt.Sprintf("caller%02d", i), func() {
 			for _, c := range mine {
 				ctx := context.Background()
@@ -271,9 +325,15 @@ func scenC10(r *Run) {
 	if wantAbort {
 		acts.Add("abort", func() bool { return started() > btoi(warm) && sim.Decisions() >= abortAfter }, func() {
 			sim.Task("zabort", func() {
-				sim.Event("abort-begin")
+				abortSeq = sim.Event("abort-begin")
+				for _, c := range calls {
+					if c.startedSeq != 0 && !c.done && c.inIO && sim.TaskState(c.task) == "blocked" {
+						c.atAbort = true
+					}
+				}
 				client.Abort()
 				lossExecuted = true
+				aborted = true
 				sim.Fault("abort")
 				sim.Event("abort-end")
 			})
@@ -326,8 +386,7 @@ func scenC10(r *Run) {
 
 	// ---- phase 2: the client stays usable
 	phase = "after"
-	net.Disarm()
-	net.HealSilent()
+	fx.Heal()
 	// let the consequences of the last fault settle (connection teardown)
 	sim.Drive(func() bool { return false })
 	if sim.Failure() != nil {
@@ -349,7 +408,7 @@ func scenC10(r *Run) {
 	if sim.Failure() != nil {
 		return
 	}
-	if _, p := fx.Pending(); p != 0 {
+	if _, p := fx.Pending(); p > 0 {
 		r.Fail("C10:pending-entries-left:"+kind, "%d pending entries although no call is in flight", p)
 		return
 	}
